@@ -196,7 +196,7 @@ def run(ctx):
         counts[which] = n
         for b in bad[:5]:
             cex.append({'key': 'c07:%s:%s' % (which, b.get('term', '')), 'what': b['what'], 'input': b})
-    sem = semantic_cases(ctx, 250 if ctx.quick else 2000)
+    sem = semantic_cases(ctx, 250 if ctx.quick else 1000)
     inputs = []
     for c in sem:
         inputs += [[c['raw']], [c['paren']]]
